@@ -22,6 +22,7 @@ def analyse(ctx, cfg):
         changed = False
         P.arg_obs = {}
         P.arg_rel_obs = {}
+        P.arg_field_obs = {}
         for n in names:
             r = P.runs[n]
             sites = r.run()
@@ -53,6 +54,10 @@ def analyse(ctx, cfg):
         rl = {n_: frozenset(o) for n_, o in P.arg_rel_obs.items() if o and n_ in P.runs and P.runs[n_].body["span"]["f"] in C06_FILES}
         if rl != P.param_rel:
             P.param_rel = rl
+            changed = True
+        fl = {n_: dict(o) for n_, o in P.arg_field_obs.items() if o and n_ in P.runs and P.runs[n_].body["span"]["f"] in C06_FILES}
+        if fl != P.param_fields:
+            P.param_fields = fl
             changed = True
         if not changed:
             break
